@@ -56,7 +56,9 @@ class Shaped:
         o = ObjVal(cls)
         o.tag = {'name': tag}
         idv = p.fresh_int(f'id_{tag}')
-        p.assume(idv > 0)
+        # existing nodes: ids below every id the counter hands out later
+        # (modelled as a range disjoint from the concrete fresh ids)
+        p.assume(idv >= nm.LAZY_ID_BASE)
         o.attrs['id'] = SNum(idv)
         if shape is None:
             t = p.fresh_str(f'txt_{tag}')
